@@ -1,3 +1,10 @@
 import PieModel.Props.C10
-open PieModel
-#print axioms C10_placeholder
+
+#print axioms PieModel.C10_inv_step
+#print axioms PieModel.C10_inv_reachable
+#print axioms PieModel.C10_ranks_bijection
+#print axioms PieModel.C10_edges_upward
+#print axioms PieModel.C10_acyclic
+#print axioms PieModel.C10_addEdge_cycle_iff
+#print axioms PieModel.C10_addEdge_rejected_unchanged
+#print axioms PieModel.C10_addEdge_missing_iff
